@@ -151,8 +151,10 @@ fn relative_import(from: &[String], target: &[String]) -> String {
     format!("{}{}", "super.".repeat(ups), target[common..].join("."))
 }
 
-const FN_NAMES: [&str; 3] = ["f", "g", "h"];
-const MOD_NAMES: [&str; 3] = ["a", "b", "c"];
+// the pools contain names that spell the same text once the dots are dropped (a.b.f, ab.f, a.bf):
+// qualified names must not be confused when the boundary between module and function moves
+const FN_NAMES: [&str; 4] = ["f", "g", "h", "bf"];
+const MOD_NAMES: [&str; 4] = ["a", "b", "c", "ab"];
 
 fn gen_tree(c: &mut Choices, depth: u32, is_root: bool, err: &mut Option<&'static str>, allow_err: bool) -> MTree {
     let mut fns: Vec<(String, usize)> = vec![];
